@@ -8,13 +8,14 @@ MC          : MergeEngine_MC.  SpecE: every history of register / add_cset / rep
               whatever hook is called next), InvCoherent, InvPreservedOnce, InvRegistered; action properties
               PreservedStable, HooksGrowOnly, Regenerated, FailureFrame.  SpecO: finish() with retries of
               install / uninstall / replace operations under failing triggers and failing format / repository
-              calls; InvOp (OpOrdered, UnderLock, NoRerun), InvDonePrefix, InvLockHeld, DoneGrows,
+              calls; InvOp (OpOrdered, UnderLock, NoRerun), InvDonePrefix, InvLockHeld, InvAbandon, DoneGrows,
               FinishCompletes, FailedStageNotDone.
               Vacuity guards: three deliberately broken engines (unstable priority sort, csets not dropped
               between hooks, no trigger_end after a failure) must be refuted by TLC.
 spec -> code: MergeEngine_Sim (TLC -simulate) chooses engine histories and operation histories; they are
               executed on a REAL MergeEngine (recording triggers / observer / cset sources) and on REAL
-              operations.domain install / uninstall / replace objects (fake package format, repository, lock).
+              operations.domain install / uninstall / replace objects (fake package format, repository, lock);
+              every operation is finally given up (the object is dropped) and what it leaves behind is judged.
               MergeEngine_Export enumerates every get_writable_fsobj case.
 code -> spec: seeded random histories over a random universe of triggers (random priorities incl. ties and
               negatives, hooks incl. unknown ones, engine types, required csets as tuple / per-mode dict / all,
@@ -67,7 +68,7 @@ MC_CONSTS = """  Trigs <- MCTrigs
 """
 E_PROPS = ("INVARIANT InvRun\nINVARIANT InvCoherent\nINVARIANT InvPreservedOnce\nINVARIANT InvRegistered\n"
            "PROPERTY PreservedStable\nPROPERTY HooksGrowOnly\nPROPERTY Regenerated\nPROPERTY FailureFrame\n")
-O_PROPS = ("INVARIANT InvOp\nINVARIANT InvDonePrefix\nINVARIANT InvLockHeld\n"
+O_PROPS = ("INVARIANT InvOp\nINVARIANT InvDonePrefix\nINVARIANT InvLockHeld\nINVARIANT InvAbandon\n"
            "PROPERTY DoneGrows\nPROPERTY FinishCompletes\nPROPERTY FailedStageNotDone\n")
 GUARDS = [  # (broken variant, invariant TLC must report)
     ({"StableSort": "FALSE"}, "InvOrder"),
@@ -142,7 +143,6 @@ class Rec:
         self.items = []
         self.reset_engine()
         self.current = ""  # trigger between trigger_start and trigger_end
-        self.closed = False
 
     def reset_engine(self):
         self.labels = {}
@@ -151,8 +151,7 @@ class Rec:
         self.inj = 0
 
     def item(self, k, h="", t="", n="", v=NOVAL, a=()):
-        if not self.closed:
-            self.items.append(dict(k=k, h=h, t=t, n=n, v=list(v), a=[list(x) for x in a]))
+        self.items.append(dict(k=k, h=h, t=t, n=n, v=list(v), a=[list(x) for x in a]))
 
     def label(self, obj):
         return self.labels.get(id(obj), ["?", 0])
@@ -496,14 +495,12 @@ class World:
 
         class Lock:
             def acquire_write_lock(self):
-                if not rec.closed:
-                    rec.item("lock", n="acquire")
-                    world.lock_count += 1
+                rec.item("lock", n="acquire")
+                world.lock_count += 1
 
             def release_write_lock(self):
-                if not rec.closed:
-                    rec.item("lock", n="release")
-                    world.lock_count -= 1
+                rec.item("lock", n="release")
+                world.lock_count -= 1
 
             def acquire_read_lock(self):
                 pass
@@ -573,14 +570,19 @@ class World:
                    tmps=len(os.listdir(self.op_tmp)), live=live)
         return ost, (self.project(op.me) if live else None)
 
-    def close_op(self):
-        """the operation object is dropped: its __del__ may release the lock; that is not part of any call"""
-        self.rec.closed = True
-        self.op = None
+    def abandon_op(self):
+        """the operation object is dropped; what its __del__ leaves behind"""
         import gc
+        import weakref
 
-        gc.collect()
-        self.rec.closed = False
+        alive = weakref.ref(self.op)
+        self.op = None  # no reference cycle holds the operation: its finalizer runs here
+        if alive() is not None:
+            gc.collect()
+        if alive() is not None:
+            raise tlc.MachineryError("the operation object is still referenced: cannot observe what giving it up does")
+        self.rec.take()
+        return dict(done=[], locks=self.lock_count, tmps=len(os.listdir(self.op_tmp)), live=False)
 
     def cleanup(self):
         base = getattr(self, "base", None)
@@ -648,7 +650,7 @@ def run_op_history(w, tid, hist, events):
         res, log = w.apply_finish()
         ost, st = w.project_op()
         events.append(event(w, tid, i, "finish", res=res, log=log, ost=ost, st=st))
-    w.close_op()
+    events.append(event(w, tid, i + 1, "abandon", ost=w.abandon_op()))
     w.cleanup()
 
 
@@ -803,9 +805,9 @@ def random_engine_history(r_, uni, steps, plugins):
                 bound.append(users[k])
                 defined.append(users[k])
         elif x < 0.45:
-            hist.append(dict(ev="replace", n=r_.choice(PRESERVED_BY_MODE[mode])))
+            hist.append(dict(ev="replace", n=r_.choice(PRESERVED_BY_MODE[mode] * 4 + defined)))
         elif x < 0.52:
-            hist.append(dict(ev="peek", n=r_.choice(defined)))
+            hist.append(dict(ev="peek", n=r_.choice(defined * 4 + ["nosuch"])))
         elif x < 0.72:
             hist.append(dict(ev="setfail", t=r_.choice(uni["trigs"]), k=r_.choice(KINDS + ["ok", "ok"])))
         else:
